@@ -307,6 +307,28 @@ def content_fails_anyway(pws, opts):
     return bool(tr.exc)
 
 
+def autodetect_consistency(t, L, enc, wr):
+    from lib_trainer.trainer_file_input import detect_file_encoding
+    out = {}
+    for name, (hexed, eol) in {"hex-lf": (True, b"\n"), "hex-crlf": (True, b"\r\n")}.items():
+        lines = [(("$HEX[" + p.encode(enc).hex() + "]").encode("ascii") if hexed else p.encode(enc)) for p in L]
+        path = os.path.join(wr, "detect_%s.txt" % name)
+        with open(path, "wb") as f:
+            f.write(eol.join(lines) + eol)
+        found = []
+        try:
+            ok = detect_file_encoding(path, found)
+        except Exception as e:
+            return ("encoding_autodetect_raised", {"variant": name, "error": repr(e)})
+        out[name] = (bool(ok), found[0] if found else None)
+    # all-$HEX[] files hand the detector exactly the decoded payloads, so LF and CRLF renderings must agree.
+    # (plain vs hex and plain LF vs CRLF feed the heuristic detector different bytes -- line ends included -- and may
+    # legitimately be detected differently; that is not judged)
+    if out["hex-lf"] != out["hex-crlf"]:
+        return ("encoding_autodetect_depends_on_line_ends", {"detected": repr(out), "file_encoding": enc})
+    return None
+
+
 def passes_of(tr):
     return [list(r) for r in tr.cap.reads]
 
@@ -404,6 +426,14 @@ def run_c19(t, tier, res):
         if h is not None and h != base:
             diff = sorted(k for k in set(h) | set(base) if h.get(k) != base.get(k))
             res.violate("C19", "variant_ruleset_differs", {"variant": name, "files": diff[:6], "encoding": enc})
+            return
+    # encoding autodetection (trainer.py without --encoding) must not depend on the line-end convention or on
+    # whether passwords are written plain or as $HEX[]: the same bytes reach the detector
+    if not res.violations and t.chance(1, 2):
+        prob = autodetect_consistency(t, L, enc, wr=scratch.worker_root())
+        res.stats["autodetect_comparisons"] += 1
+        if prob:
+            res.violate("C19", prob[0], prob[1])
             return
     # byte-flip faults on the plain file
     data = bytearray(variants[0][2][0])
